@@ -267,6 +267,16 @@ func (env *Zlisp) MakeSymbol(name string) *SexpSymbol {
 
 func (env *Zlisp) GenSymbol(prefix string) *SexpSymbol {
 	symname := prefix + strconv.Itoa(env.nextsymbol)
+	for {
+		// a script may already have interned this very name;
+		// a generated symbol must not be an existing one.
+		_, used := env.symtable[symname]
+		if !used {
+			break
+		}
+		env.nextsymbol++
+		symname = prefix + strconv.Itoa(env.nextsymbol)
+	}
 	return env.MakeSymbol(symname)
 }
 
